@@ -49,6 +49,19 @@ class FieldLoc:
         return f'{self.ref}.{self.fname}'
 
 
+class OptFieldLoc:
+    """The container inside an Optional[container] field of object `ref` (the field is known to be not None)."""
+    __slots__ = ('ref', 'fname', 'oty')
+
+    def __init__(self, ref, fname, oty):
+        self.ref = ref
+        self.fname = fname
+        self.oty = oty
+
+    def __repr__(self):
+        return f'{self.ref}.{self.fname}!'
+
+
 _fresh = itertools.count()
 
 
